@@ -1,0 +1,41 @@
+//go:build verif
+
+package embedded
+
+import (
+	"sort"
+
+	"github.com/zenon-network/go-zenon/common/types"
+	"github.com/zenon-network/go-zenon/vm/constants"
+)
+
+// VerifMethodPlasmaEntry is the base plasma of one callable method (largest method table). Verification harness only.
+type VerifMethodPlasmaEntry struct {
+	Contract types.Address
+	Selector []byte
+	Plasma   uint64
+}
+
+func VerifMethodPlasma() []VerifMethodPlasmaEntry {
+	res := make([]VerifMethodPlasmaEntry, 0)
+	for addr, impl := range htlcEmbedded {
+		for name, method := range impl.m {
+			am, ok := impl.abi.Methods[name]
+			if !ok {
+				continue
+			}
+			p, err := method.GetPlasma(&constants.AlphanetPlasmaTable)
+			if err != nil {
+				continue
+			}
+			res = append(res, VerifMethodPlasmaEntry{Contract: addr, Selector: append([]byte{}, am.Id()...), Plasma: p})
+		}
+	}
+	sort.Slice(res, func(i, j int) bool {
+		if res[i].Contract != res[j].Contract {
+			return string(res[i].Contract[:]) < string(res[j].Contract[:])
+		}
+		return string(res[i].Selector) < string(res[j].Selector)
+	})
+	return res
+}
